@@ -67,7 +67,7 @@ func ruleLenExact(c *Ctx, r *Rep, tier string) {
 	r.Instance(rule, 1)
 	ok := false
 	allInstrs(fn, func(ins ssa.Instruction) {
-		if bo, isBo := ins.(*ssa.BinOp); isBo && bo.Op == token.NEQ && strip(bo.Y) == strip(size) {
+		if bo, isBo := ins.(*ssa.BinOp); isBo && bo.Op == token.NEQ && (strip(bo.Y) == strip(size) || strip(bo.X) == strip(size)) {
 			ok = true
 		}
 	})
